@@ -13,12 +13,12 @@ ROOT = os.path.dirname(os.path.dirname(os.path.abspath(__file__)))
 sys.path.insert(0, ROOT)
 from engine import common, mbt, tlc  # noqa: E402
 
-CKINDS = ["builtin", "builtin2", "module", "nested", "baseonly", "custominit", "kwonly", "mid", "local", "dynamic", "eqhash", "dcerr"]
+CKINDS = ["builtin", "builtin2", "module", "nested", "baseonly", "custominit", "kwonly", "mid", "local", "dynamic", "eqhash", "dcerr", "attr", "local_shadow"]
 AKINDS = ["none", "json", "picklable", "unpicklable", "socket", "unreprable", "mixed", "const", "loadfail"]
 ENCS = ["json", "dict", "pickle"]
 FOREIGN = ["func", "cls", "inst", "module", "nested_cls", "nested_func", "os_system", "eval", "object"]
 GOOD = ["exc", "nested_exc", "builtin_exc", "baseonly", "custominit", "sub_exc"]
-SYNTH = ["missing_attr", "missing_nested", "deep_missing", "lazy", "lazy_sub", "nomod", "nomodule_field", "nomodule_dotted", "nomodule_builtin_name"]
+SYNTH = ["missing_attr", "missing_nested", "deep_missing", "lazy", "lazy_sub", "cold_pkg", "nomod", "nomodule_field", "nomodule_dotted", "nomodule_builtin_name"]
 
 
 def _drive_batch(scn: Dict[str, Any]) -> Dict[str, Any]:
@@ -89,6 +89,8 @@ def gen_c20(seed: int, tier: str) -> List[Dict[str, Any]]:
                 for entry in ("validate", "json"):
                     cases.append({"p": {"t": top, pos: {"t": t}}, "entry": entry})
                     cases.append({"p": {"t": top, pos: {"t": "exc", ("context" if pos == "cause" else "cause"): {"t": t, "a": "two"}}}, "entry": entry})
+    for entry in ("direct", "validate", "json"):
+        cases.append({"p": {"t": "lazy", "a": "one"}, "entry": entry, "then_import": True})
     for _ in range(300 if tier == "quick" else 8000):
         def rnd(d: int) -> Dict[str, Any]:
             p: Dict[str, Any] = {"t": rng.choice(allk), "a": rng.choice(["none", "one", "two"]), "sup": rng.random() < 0.3}
@@ -114,6 +116,9 @@ def run_check(prop: str, tier: str) -> int:
     kind = "c19" if prop == "C19" else "c20"
     cases = gen_c19(seed, tier) if prop == "C19" else gen_c20(seed, tier)
     scns = [{"kind": kind, "cases": cases[i:i + 300]} for i in range(0, len(cases), 300)]
+    if prop == "C19":
+        # the class becomes importable between two loads of the same stored error: the second load must give the real class
+        scns.append({"kind": "c20", "cases": [{"p": {"t": "lazy", "a": "one"}, "entry": e, "then_import": True} for e in ("direct", "validate", "json")]})
     traces = mbt.drive("engine.exc_check", "_drive_batch", scns)
     verdicts = mbt.observe(traces, "ObsExc", shards=12, per_shard_min=1)
     viol_n = 0
@@ -130,7 +135,7 @@ def run_check(prop: str, tier: str) -> int:
     n = sum(len(t["ev"]) for t in traces)
     if prop == "C19":
         nontriv = len({json.dumps([e["g"], e["enc"], e["root"]], sort_keys=True) for t in traces for e in t["ev"]
-                       if any(nd["cause"] or nd["context"] for nd in e["g"])})
+                       if e["e"] == "rt" and any(nd["cause"] or nd["context"] for nd in e["g"])})
     else:
         nontriv = len({json.dumps([e["p"], e["entry"]], sort_keys=True) for t in traces for e in t["ev"] if e["p"]["k"] != "exc" or
                        e["p"].get("cause", {}).get("k", "nil") != "nil" or e["p"].get("context", {}).get("k", "nil") != "nil"})
